@@ -426,6 +426,42 @@ class PPOAdvantageMonitor:
                     break
             if not foreign:
                 run.res.probe("ppo_bootstrap_inputs_checked")
+        # (a') the bootstrap of an environment must not depend on what the OTHER environments did in the same step: whether the
+        # value after a truncated (not terminated) episode end is taken at the episode's final observation or at the reset
+        # observation has to be the same rule for every such end of the run
+        succ = []
+        for env in envs:
+            m, evs = {}, env.log
+            k = 0
+            for j, ev in enumerate(evs):
+                if ev["k"] != "step":
+                    continue
+                nxt = evs[j + 1] if j + 1 < len(evs) else None
+                m[k] = (ev, nxt["gid"] if nxt is not None and nxt["k"] == "reset" else None)
+                k += 1
+            succ.append(m)
+        kinds = {}
+        k = 0
+        for tag, args, out in recs:
+            if tag != "vf" or not args or args[0].ndim != 2 or args[0].shape != (N, od) or foreign:
+                continue
+            for e in range(N):
+                ev, reset_gid = succ[e].get(k, (None, None))
+                if ev is None or not ev["trunc"] or ev["term"]:
+                    continue
+                g = obs_gid(args[0][e])
+                kind = "final" if g == ev["gid1"] else "reset" if g == reset_gid else "other"
+                kinds.setdefault(kind, (e, k))
+            k += 1
+        if "final" in kinds and "reset" in kinds:
+            (e1, k1), (e2, k2) = kinds["final"], kinds["reset"]
+            together = [e for e in range(N) if succ[e].get(k2, (None, None))[0] is not None and (succ[e][k2][0]["trunc"] or succ[e][k2][0]["term"])]
+            run.V("C07.ppo.bootstrap", f"truncated episode ends are bootstrapped inconsistently: environment {e1} at rollout step {k1} from the episode's final observation, environment {e2} at step {k2} "
+                                       f"from the reset observation of the next episode (environments whose episodes ended at step {k2}: {together})")
+        elif kinds:
+            run.res.probe("ppo_truncation_bootstrap_rule_consistent")
+            if any(sum(1 for e in range(N) if succ[e].get(kk, (None, None))[0] is not None and succ[e][kk][0]["trunc"] and not succ[e][kk][0]["term"]) > 1 for kk in range(k)):
+                run.res.probe("ppo_simultaneous_truncations")
         # (b) advantages per environment
         losses = [(np.asarray(a[2] if len(a) > 2 else a[0]), a) for tag, a, out in recs if tag == "ppo_loss"]
         g, lam = self.GAMMA, self.LAMBDA
